@@ -146,22 +146,37 @@ def rule_wrap(ctx):
     p = ctx.p
     ctx.rule("C03.WRAP", "the ConnectionConditions wrapper delegates only when every required future is done; otherwise it replies once and returns")
     w, conn, paths = check_wrapper(ctx, "ConnectionConditions", "C03.WRAP", count_replies=False)
-    # the set of awaited futures is built from *all* of self.fields
-    comp = None
+    # the set of awaited futures is built from *all* of self.fields: a comprehension over self.fields, or a loop over it that
+    # unconditionally stores one key per entry
+    comp = None        # the comprehension node, if that form is used
+    coll_name = None   # the local the collection is bound to
+    key = None
+    names = set()
     for n in walk_no_nested(w):
         if isinstance(n, (ast.DictComp, ast.ListComp, ast.SetComp, ast.GeneratorExp)):
             for g in n.generators:
-                if src(g.iter) == "self.fields":
+                if src(g.iter) == "self.fields" and not g.ifs:
                     comp = n
+                    key = n.key if isinstance(n, ast.DictComp) else n.elt
+                    names = {x.id for g_ in n.generators for x in ast.walk(g_.target) if isinstance(x, ast.Name)}
+                    par = p.parent.get(n)
+                    if isinstance(par, ast.Assign) and len(par.targets) == 1 and isinstance(par.targets[0], ast.Name):
+                        coll_name = par.targets[0].id
+        if isinstance(n, ast.For) and src(n.iter) == "self.fields" and not n.orelse:
+            for st in n.body:   # top level of the loop body only: unconditional
+                if isinstance(st, ast.Assign) and len(st.targets) == 1 and isinstance(st.targets[0], ast.Subscript) and isinstance(st.targets[0].value, ast.Name):
+                    coll_name, key = st.targets[0].value.id, st.targets[0].slice
+                elif isinstance(st, ast.Expr) and isinstance(st.value, ast.Call) and isinstance(st.value.func, ast.Attribute) and st.value.func.attr in ("append", "add") \
+                        and isinstance(st.value.func.value, ast.Name) and st.value.args:
+                    coll_name, key = st.value.func.value.id, st.value.args[0]
+            if key is not None:
+                comp = n
+                names = {x.id for x in ast.walk(n.target) if isinstance(x, ast.Name)}
     ctx.ob("C03.WRAP", w, "the guard awaits one future per entry of self.fields (the whole decorator argument list)", comp is not None,
            "the guard no longer derives the awaited futures from all of self.fields", construct="wrapper:fields comprehension")
     key_ok = False
     if comp is not None:
-        key = comp.key if isinstance(comp, ast.DictComp) else comp.elt
-        names = {x.id for g in comp.generators for x in ast.walk(g.target) if isinstance(x, ast.Name)}
         key_ok = isinstance(key, ast.Subscript) and isinstance(key.value, ast.Name) and key.value.id == conn and isinstance(key.slice, ast.Name) and key.slice.id in names
-        if isinstance(key, ast.Call) and isinstance(key.func, ast.Name) and key.func.id == "getattr":
-            key_ok = False
     ctx.ob("C03.WRAP", comp if comp is not None else w, "each awaited future is <session>[<field name>] (the presence future, not its value)", key_ok,
            "the guard does not await the session's presence futures", construct="wrapper:future lookup")
     # the aggregate that is awaited covers the whole collection, and the await is wait_for(shield(aggregate), timeout)
@@ -172,8 +187,9 @@ def rule_wrap(ctx):
         inner = arg.args[0] if isinstance(arg, ast.Call) and (dotted(arg.func) or "").endswith("shield") and arg.args else arg
         inner = expand(p, inner, w)
         if isinstance(inner, ast.Call) and (dotted(inner.func) or "").endswith("gather") and inner.args and isinstance(inner.args[0], ast.Starred):
-            coll = expand(p, inner.args[0].value, w)
-            if coll is comp:
+            star = inner.args[0].value
+            coll = expand(p, star, w)
+            if (coll is comp and comp is not None) or (isinstance(star, ast.Name) and star.id == coll_name):
                 ok = True
     ctx.ob("C03.WRAP", w, "the awaited aggregate is gather(*<all required futures>)", ok,
            "the guard's awaited aggregate does not cover all required futures", construct="wrapper:aggregate")
@@ -202,10 +218,11 @@ def rule_wrap(ctx):
                    "the guard calls the wrapped handler although a required future was found missing (or without testing any)",
                    construct="wrapper:delegation after timeout")
     # the loop over futures iterates the whole collection
-    for l in [n for n in walk_no_nested(w) if isinstance(n, ast.For)]:
+    for l in [n for n in walk_no_nested(w) if isinstance(n, ast.For) and n is not comp]:
         it = l.iter
         base = it.func.value if isinstance(it, ast.Call) and isinstance(it.func, ast.Attribute) and it.func.attr in ("items", "keys") else it
-        ctx.ob("C03.WRAP", l, "the refusal loop inspects every required future", expand(p, base, w) is comp,
+        whole = (expand(p, base, w) is comp and comp is not None) or (isinstance(base, ast.Name) and base.id == coll_name) or src(base) == "self.fields"
+        ctx.ob("C03.WRAP", l, "the refusal loop inspects every required future", whole,
                f"the refusal loop iterates `{src(it)}`, not the whole collection of required futures", construct=f"wrapper:loop over {src(it)[:40]}")
 
 
